@@ -15,6 +15,7 @@ import (
 	"github.com/scrapli/scrapligo/driver/options"
 	"github.com/scrapli/scrapligo/util"
 
+	"verifgo/facts"
 	"verifgo/sim"
 	"verifgo/vlib"
 )
@@ -53,6 +54,17 @@ type c04case struct {
 	ordSeed int
 	indom   bool // generated inside the property's quantifier
 }
+
+// c04cfgLevel is the level SendConfigs falls back to, as the source says now
+// (driver/network: defaultConfigurationPrivLevel), read from the tree the harness was built against.
+var c04cfgLevel = func() string {
+	facts.Repo = repoDir()
+	consts, _ := facts.PkgConsts("driver/network")
+	if v, ok := consts["defaultConfigurationPrivLevel"]; ok && v.IsStr && v.S != "" {
+		return v.S
+	}
+	return "configuration"
+}()
 
 var c04payload = []string{"show version", "show running-config", "interface lo0", "description uplink", "ping 10.0.0.1", "x", "no shutdown", "write memory", "dir", "show  ip   route"}
 
@@ -289,7 +301,7 @@ func c04random(seed uint64, maxN, maxOps int, kind string) c04case {
 	if r.Chance(1, 2) {
 		names = c04names(n)
 		if r.Chance(1, 2) {
-			names[r.Intn(n)] = "configuration"
+			names[r.Intn(n)] = c04cfgLevel
 		}
 	} else {
 		w := append([]string{}, c04words...)
@@ -386,6 +398,7 @@ func c04min(a, b int) int {
 type c04obs struct {
 	errs   []string
 	modes  []string
+	caches []string // Driver.CurrentPriv after each operation
 	log    []sim.LineEvent
 	fatal  string
 	ran    int
@@ -472,6 +485,7 @@ func runC04case(cs c04case) (o c04obs) {
 		}
 		o.errs = append(o.errs, c04errClass(err))
 		o.modes = append(o.modes, dev.ModeNow())
+		o.caches = append(o.caches, d.CurrentPriv)
 		o.ran++
 		if ec := c04errClass(err); ec == "timeout" || ec == "connection" {
 			break // the session is out of step; further operations would only wait for timeouts
@@ -535,7 +549,10 @@ func c04opLevel(cs c04case, op c04op) string {
 		return cs.def
 	case "cfgs", "cfg":
 		if op.priv == "" {
-			return "configuration"
+			if cs.kind == "ios" {
+				return "configuration" // the name every shipped platform definition uses
+			}
+			return c04cfgLevel
 		}
 		return op.priv
 	case "acq":
@@ -808,7 +825,7 @@ func c04check(c *ctx, cases []c04case) {
 	for i, cs := range cases {
 		o := obs[i]
 		f := strings.Fields(ans[i])
-		if len(f) != 7 {
+		if len(f) != 8 {
 			res.Fail("machinery", cs.line, "driver answered "+ans[i]+" for "+lines[i], "driver")
 			continue
 		}
@@ -842,7 +859,7 @@ func c04check(c *ctx, cases []c04case) {
 			// transition command on a proper tree): compare for correspondence; ambiguous prompts
 			// depend on Go's map order and are only counted.
 			if cs.kind == "stale" && o.fatal == "" {
-				if implE != f[1] || implM != f[2] || implL != f[3] {
+				if implE != f[1] || implM != f[2] || implL != f[3] || c04modesStr(o.caches) != f[7] {
 					res.Fail("correspondence", cs.line, fmt.Sprintf("out-of-domain (stale cache) session: impl errs %s modes %s log [%s] ; model errs %s modes %s log %s", implE, implM, c04pretty(o.log), f[1], f[2], f[3]), "impl-vs-model-stale")
 				} else {
 					res.Count("stale:agree")
@@ -851,15 +868,6 @@ func c04check(c *ctx, cases []c04case) {
 			continue
 		}
 		res.InDomain++
-		// machinery: the two specifications (Go, Lean) and the Lean model must agree in-domain
-		if c04errsStr(sp.errs) != f[4] || c04modesStr(sp.modes) != f[5] || c04logStr(sp.log) != f[6] {
-			res.Fail("machinery", cs.line, fmt.Sprintf("Go oracle and Lean spec disagree: go errs %s log [%s] ; lean errs %s log %s", c04errsStr(sp.errs), c04pretty(sp.log), f[4], f[6]), "spec-vs-spec")
-			continue
-		}
-		if f[1] != f[4] || f[2] != f[5] || f[3] != f[6] {
-			res.Fail("machinery", cs.line, fmt.Sprintf("Lean model and Lean spec disagree in-domain: model %s %s %s ; spec %s %s %s", f[1], f[2], f[3], f[4], f[5], f[6]), "model-vs-spec")
-			continue
-		}
 		// oracle: the property on the implementation
 		if o.fatal != "" {
 			res.Fail("oracle", cs.line, "session could not run: "+o.fatal, "fatal:"+strings.SplitN(o.fatal, ":", 2)[0])
@@ -891,6 +899,17 @@ func c04check(c *ctx, cases []c04case) {
 		if bad {
 			continue
 		}
+		for k := range o.caches {
+			// cache coherence on the implementation: a cache that names a level names the device's level
+			if c04find(cs, o.caches[k]) != nil && o.caches[k] != o.modes[k] {
+				res.Fail("oracle", cs.line, fmt.Sprintf("after operation %d CurrentPriv is %q but the device is in %q", k, o.caches[k], o.modes[k]), "cache-incoherent")
+				bad = true
+				break
+			}
+		}
+		if bad {
+			continue
+		}
 		if implL != c04logStr(sp.log) {
 			res.Fail("oracle", cs.line, fmt.Sprintf("device received [%s], expected [%s]", c04pretty(o.log), c04pretty(sp.log)), "wrong-device-log")
 			continue
@@ -899,9 +918,18 @@ func c04check(c *ctx, cases []c04case) {
 			res.Fail("oracle", cs.line, "the device denied a password", "password-denied")
 			continue
 		}
+		// machinery: the two specifications (Go, Lean) and the Lean model must agree in-domain
+		if c04errsStr(sp.errs) != f[4] || c04modesStr(sp.modes) != f[5] || c04logStr(sp.log) != f[6] {
+			res.Fail("machinery", cs.line, fmt.Sprintf("Go oracle and Lean spec disagree: go errs %s log [%s] ; lean errs %s log %s", c04errsStr(sp.errs), c04pretty(sp.log), f[4], f[6]), "spec-vs-spec")
+			continue
+		}
+		if f[1] != f[4] || f[2] != f[5] || f[3] != f[6] {
+			res.Fail("machinery", cs.line, fmt.Sprintf("Lean model and Lean spec disagree in-domain: model %s %s %s ; spec %s %s %s", f[1], f[2], f[3], f[4], f[5], f[6]), "model-vs-spec")
+			continue
+		}
 		// correspondence: implementation vs Lean model
-		if implE != f[1] || implM != f[2] || implL != f[3] {
-			res.Fail("correspondence", cs.line, fmt.Sprintf("impl errs %s modes %s log %s ; model errs %s modes %s log %s", implE, implM, implL, f[1], f[2], f[3]), "impl-vs-model")
+		if implE != f[1] || implM != f[2] || implL != f[3] || c04modesStr(o.caches) != f[7] {
+			res.Fail("correspondence", cs.line, fmt.Sprintf("impl errs %s modes %s caches %s log %s ; model errs %s modes %s caches %s log %s", implE, implM, c04modesStr(o.caches), implL, f[1], f[2], f[7], f[3]), "impl-vs-model")
 		}
 	}
 	res.TracesVsImpl += len(cases)
